@@ -200,6 +200,12 @@ func c10World() *vWorld {
 	if c10TheWorld != nil {
 		return c10TheWorld
 	}
+	c10TheWorld = c10NewWorld(true)
+	return c10TheWorld
+}
+
+// c10NewWorld: every issuing path available (Ed25519 CA, automation identities, fake STS).
+func c10NewWorld(noDB bool) *vWorld {
 	w := vNewWorld(vWorldOpts{
 		Ed25519CA:        true,
 		CertBackends:     []string{"password", "IPCertificate"},
@@ -208,7 +214,7 @@ func c10World() *vWorld {
 		AdminUsers:       []string{"root-admin"},
 		AutomationUsers:  []string{vUserRobot},
 		AutomationAdmins: []string{"auto-admin"},
-		NoDB:             true,
+		NoDB:             noDB,
 	})
 	w.state.Config.AwsCerts.AllowedAccounts = []string{"123456789012"}
 	if err := w.state.configureAwsRoles(); err != nil {
@@ -227,7 +233,6 @@ func c10World() *vWorld {
 	if err != nil {
 		panic(err)
 	}
-	c10TheWorld = w
 	return w
 }
 
